@@ -82,6 +82,28 @@ def select(branches: list[Branch], **want) -> Branch:
 # ---------------------------------------------------------------------------
 
 
+def local_env(tr, fn: ast.AST) -> dict:
+    """Temporaries of a function for a closed-form translator: every local name that is assigned exactly once, by a
+    plain assignment whose value the translator can evaluate (in source order, earlier temporaries inlined).  Names
+    assigned more than once, loop targets and anything the translator does not understand stay out of the environment,
+    so that a rule that meets them ends as before (AnalysisError), never with a guess."""
+    count: dict[str, int] = {}
+    for n in ast.walk(fn):
+        if isinstance(n, ast.Name) and isinstance(n.ctx, ast.Store):
+            count[n.id] = count.get(n.id, 0) + 1
+    env: dict = {}
+    assigns = sorted((n for n in ast.walk(fn) if isinstance(n, ast.Assign) and len(n.targets) == 1 and isinstance(n.targets[0], ast.Name)), key=lambda n: (n.lineno, n.col_offset))
+    for a in assigns:
+        nm = a.targets[0].id
+        if count.get(nm) != 1 or nm in tr.names:
+            continue
+        try:
+            env[nm] = tr.expr(a.value, env)
+        except AnalysisError:
+            continue
+    return env
+
+
 class PyTranslator:
     """names: mapping of free names (module constants, parameters) to sympy values;
     call_hook(node, args, tr) may return a sympy value for calls the default does not know;
@@ -725,6 +747,9 @@ class OpenPyTranslator(PyTranslator):
     def _stmt(self, s, env):
         if isinstance(s, ast.Assign):
             v = self.expr(s.value, env)
+            # 'x = x op e' is the long spelling of 'x op= e': the accumulation is recorded the same way
+            if len(s.targets) == 1 and isinstance(s.value, ast.BinOp) and core.src(s.value.left) == core.src(s.targets[0]) and isinstance(s.value.op, (ast.Add, ast.Sub, ast.Mult, ast.Div)):
+                self.appends.setdefault("aug:" + core.src(s.targets[0]), []).append((type(s.value.op).__name__, self.expr(s.value.right, env)))
             for t in s.targets:
                 self._bind(t, v, env)
         elif isinstance(s, ast.AnnAssign) and s.value is not None:
